@@ -361,11 +361,11 @@ def run(model, tier="quick"):
 
 
 MANIFEST = {
-    "technique": "structural shape rule for the TickMath fold with a closed-form constant oracle, rounding-direction rule, formula identity of the price/tick codecs",
+    "technique": "structural shape rule for the TickMath fold with a closed-form constant oracle, rounding-direction rule, formula identity of the price/tick codecs, log-base constant oracle (exact rational comparison), shared-state rule (R-FRESH)",
     "claim": "get_sqrt_ratio_at_tick is structurally the TickMath algorithm (bound assert, 20 mask steps in order and "
              "independent, inversion iff tick > 0 with 2^256-1, final round-up) and each magic constant equals its closed "
              "form to within one unit; the sqrt->tick conversion floors; the four price codecs and nearest_usable_tick are "
-             "identical, as canonical expressions, to the inverse pipelines of the statement. These are the premises from "
+             "identical, as canonical expressions, to the inverse pipelines of the statement; the log base of the sqrt->tick conversion is computed from 1.0001 (or agrees with its correctly rounded closed form); the float-to-Decimal coercion of the wrapped market methods goes through str(). These are the premises from "
              "which the stated bound, monotonicity and boundary values follow.",
     "note": "Trusted: the standard TickMath error argument given the premises; float log accuracy at exact boundaries is "
             "not decided.",
